@@ -18,7 +18,7 @@ STUBS = ["print formats its arguments but writes nothing; datetime is the real o
 ASSUMPTIONS = ["histories are the fixed call sequences of symx/scenarios.py (all public functions, shared arguments, repeated and interleaved calls); the "
                "conclusion for arbitrary interleavings uses: no argument writes + no module state + determinism per call (written argument)",
                "remove_nasty_arc is exempt for its two documented in-place arguments (covered by C19)"]
-BUDGET_S = {"quick": 1200, "thorough": 7200}
+BUDGET_S = {"quick": 1200, "thorough": 1500}
 SLICE_PATHS = 20
 
 
@@ -244,6 +244,10 @@ def run_history(e, L, cfg, env, isolate, make=None, Lfactory=None, make_for=None
             elif label == "DRAW":
                 if not isolate:
                     L.numpy.random.random(5)
+            elif label == "RECONF-FILTER-A":
+                env["filter"].undesired_motifs = list(env["filter_b"].undesired_motifs)      # the caller re-configures its filter object
+                if snaps is not None:
+                    snaps["filter"] = snapshot(env["filter"])
             elif label == "KEEP-LAST":
                 kept = (last, snapshot(last))
             elif label == "CHECK-KEPT":
@@ -268,6 +272,8 @@ def run_history(e, L, cfg, env, isolate, make=None, Lfactory=None, make_for=None
         if isolate:
             LL = Lfactory()
             env2 = make_for(LL)
+            if label.endswith("-reconf"):
+                env2["filter"].undesired_motifs = list(env2["filter_b"].undesired_motifs)
             if label.endswith("-edited"):
                 a_ = env2["acc"]
                 for v_ in range(a_.shape[0]):
